@@ -422,7 +422,11 @@ def nanvar(
     if d == 0 or n == 0:
         # the variance is a float whatever the input dtype
         return np.nan
-    return (sum_sq - sum**2 / n) / d
+    var = (sum_sq - float(sum) ** 2 / n) / d
+    if d > 0 and var < 0:
+        # the one-pass formula can end a rounding error below zero (constant arrays)
+        var = var * 0
+    return var
 
 
 def nanstd(
